@@ -357,12 +357,11 @@ func (c *clientPlaySessionHandler) handlePluginMessage(packet *plugin.Message) {
 	} else if plugin.IsRegister(packet) {
 		channelsIDs, channels := c.getChannels(c.player.clientsideChannels.Len(), packet, c.player.Protocol())
 		c.player.clientsideChannels.Add(channels...)
-		if backendConn.WritePacket(packet) != nil {
-			c.proxy().event.Fire(&PlayerChannelRegisterEvent{
-				channels: channelsIDs,
-				player:   c.player,
-			})
-		}
+		c.proxy().event.FireParallel(&PlayerChannelRegisterEvent{
+			channels: channelsIDs,
+			player:   c.player,
+		})
+		_ = backendConn.WritePacket(packet)
 	} else if plugin.IsUnregister(packet) {
 		channelIDs, channels := c.getChannels(0, packet, c.player.Protocol())
 		c.player.clientsideChannels.Remove(channels...)
